@@ -20,12 +20,17 @@ let handle (x : Sexp.t) : string =
     let fail = ref None in
     let set_fail key d = if !fail = None then fail := Some (key, d) in
     let n_wit = ref 0 and distinct = ref [] and n_sim_ok = ref 0 and n_sim_skip = ref 0 and n_tie = ref 0 in
+    (* witnesses by entry point: pdr (BMC fallback after the restart), bmc with check_constraints = true *)
+    let n_pdr = ref 0 and n_cc = ref 0 and n_pdr_runs = ref 0 in
     let nm = names_with_fallback fs in
     let diff = ref None in
     List.iter (fun r ->
+        if r.r_mode = "pdr" then incr n_pdr_runs;
         match r.r_result with
         | Sexp.List (Sexp.Atom "fail" :: wx :: rest) ->
             incr n_wit;
+            if r.r_mode = "pdr" then incr n_pdr;
+            if contains r.r_mode "+cc" then incr n_cc;
             let w = witness_of_sexp wx in
             if not (List.mem wx !distinct) then distinct := wx :: !distinct;
             if not (check_witness sy w) then begin
@@ -64,7 +69,7 @@ let handle (x : Sexp.t) : string =
         | None ->
         if !n_wit = 0 then Registry.result ~id ~status:"skip" ~key:"no-witness" ()
         else Registry.result ~id ~status:"ok" ~key:"witnesses-valid"
-            ~detail:(Printf.sprintf "%d witnesses (%d distinct) accepted by check_witness; %d equal to the model's get_witness on the recorded values; simulator: %d ok, %d skipped" !n_wit (List.length !distinct) !n_tie !n_sim_ok !n_sim_skip) ()
+            ~detail:(Printf.sprintf "%d witnesses (%d distinct) accepted by check_witness (%d from pdr in %d pdr runs, %d from bmc with check_constraints); %d equal to the model's get_witness on the recorded values; simulator: %d ok, %d skipped" !n_wit (List.length !distinct) !n_pdr !n_pdr_runs !n_cc !n_tie !n_sim_ok !n_sim_skip) ()
   end
 
 let () = Registry.register "C03" handle
